@@ -65,7 +65,7 @@ def run(tier, corrupt=False):
                 acc = {p["name"] for p in accepted}
                 kept = [r for r in recs if r["prog"] in acc and r["status"] != "bound"]
                 nbound = sum(1 for r in recs if r["status"] == "bound")
-                cases = [{"kind": "de", "prog": r["prog"], "data": r["data"], "ch0": r["ch0"], "dfuel": -1} for r in kept]
+                cases = [{"kind": "de", "prog": r["prog"], "data": r["data"], "ch0": r["ch0"], "dfuel": -1, "windows": k_ % 3 == 0} for k_, r in enumerate(kept)]
                 imp, results = run_drivers_parallel(src, wt, accepted, types, cases)
                 if imp:
                     v.violation("generated package not importable", imp.strip().splitlines()[-1], {"trace": imp})
@@ -80,6 +80,8 @@ def run(tier, corrupt=False):
                     key = f"{r['prog']} data={r['data']} chunked0={r['ch0']}"
                     case = {"prog": r["prog"], "data": r["data"], "ch0": r["ch0"], "model": {"exc": r["exc"], "obj": r["obj"], "pos": r["pos"]},
                             "observed": {"exc": o["exc"], "obj": o["obj"], "pos": o["pos"], "msg": o.get("exc_msg")}}
+                    if o.get("window_differs"):
+                        v.violation(key, "\"nothing outside the supplied bytes is read\": " + o["window_differs"], case)
                     if o["exc"] != r["exc"]:
                         v.violation(key, f"deserialize raised {o['exc'] or 'nothing'} ({o.get('exc_msg', '')}); the reading rules give "
                                          f"{r['exc'] or 'an object'}", case)
